@@ -33,6 +33,8 @@ go build ./... >>"$LOG" 2>&1; build=$?
 echo "== demo with patch" >>"$LOG"
 run_demo; with=$?
 echo "== suite with patch" >>"$LOG"
+# cmd/skylight's TestScripts starts the server with `go run` under a 10 s limit: link it once beforehand
+if git diff --name-only | grep -q '^cmd/skylight/'; then (cd cmd/skylight && timeout 300 go run . -c /nonexistent >/dev/null 2>&1); fi
 pk=$(git diff --name-only | xargs -n1 dirname | sort -u | sed 's|^|./|' | paste -sd' ')
 timeout 3000 go test -count=1 -vet=off -skip "^(TestSequenceLargeLog|TestCCADBRoots)\$" $pk >>"$LOG" 2>&1; suite=$?
 # TestSequenceLargeLog (1 s internal timeout, load sensitive) and TestCCADBRoots (needs network) are excluded here; tools/retest-large.sh re-runs the former alone
